@@ -70,6 +70,64 @@ _rect_task(3, 4, "vec")
 _rect_task(4, 4, "vec", tier="thorough")
 
 
+def _rect_history(mutation):
+    @task("C09", "Rect.history[is_dominated, m=2, K=2, slack=zero: construct, use, %s, use]" % mutation)
+    def _t(t):
+        """The verdict refers to the bounds the regions display NOW: both regions are built by the real constructor, the predicate
+        is used once, the first region is changed by the real `%s`, and the predicate is used again -- the second result must be
+        the vertex formula over the current bounds (nothing remembered from the first use may leak into it).""" % mutation
+        from pyvc.values import SObj
+        from pyvc.harness import cls_ref
+        from pyvc.symexec import find_obj
+        m, K = 2, 2
+        t.mode = "unrolled m=2 K=2, call sequence on one region object"
+        order = t.inp("order", InOrder("o", K, m))
+        O = t.inputs["order"]
+        ins = {n: t.inp(n, InArr(n, (m,))) for n in ("lo0", "up0", "lo2", "up2")}
+        snap = {n: t.inputs[n].snapshot.flat() for n in ins}
+        t.assume(*[V.R(a) <= V.R(b) for a, b in zip(list(snap["lo0"]) + list(snap["lo2"]), list(snap["up0"]) + list(snap["up2"]))])
+        r1, r2 = SObj(cls_ref(CR, "RectangularConfidenceRegion")), SObj(cls_ref(CR, "RectangularConfidenceRegion"))
+        made = [p for p in t.run(CR, "RectangularConfidenceRegion.__init__", [m, ins["lo0"], ins["up0"], mutation == "intersect"], self_val=r1) if p.kind == "return"]
+        if len(made) == 1:
+            made = [p for p in t.run(CR, "RectangularConfidenceRegion.__init__", [m, ins["lo2"], ins["up2"]], self_val=r2, after=made[0]) if p.kind == "return"]
+        if len(made) != 1:
+            t.prove("constructors_return_on_one_path", False)
+            return
+        first = [p for p in t.run(CR, "RectangularConfidenceRegion.is_dominated", [None, order, r1, r2, 0], after=made[0]) if p.kind == "return"]
+        if mutation == "intersect":
+            nl, nu = t.inp("nl", InArr("nl", (m,))), t.inp("nu", InArr("nu", (m,)))
+            t.assume(*[V.R(a) <= V.R(b) for a, b in zip(t.inputs["nl"].snapshot.flat(), t.inputs["nu"].snapshot.flat())])
+            step = lambda p: t.run(CR, "RectangularConfidenceRegion.intersect", [nl, nu], self_val=r1, after=p)
+        else:
+            mean, cov, sc = t.inp("mean", InArr("mu", (m,))), t.inp("cov", InArr("cov", (m, m))), t.inp("scale", InArr("sc", ()))
+            C = t.inputs["cov"].snapshot
+            t.assume(*[V.R(C.a[j, j]) >= 0 for j in range(m)], V.R(t.inputs["scale"].snapshot.flat()[0]) >= 0)
+            step = lambda p: t.run(CR, "RectangularConfidenceRegion.update", [mean, cov, sc], self_val=r1, after=p)
+        second = []
+        for p in first[:2]:
+            for q in step(p):
+                if q.kind == "return":
+                    second += t.run(CR, "RectangularConfidenceRegion.is_dominated", [None, order, r1, r2, 0], after=q)
+        t.prove("history_reaches_the_second_use", z3.BoolVal(len(second) > 0))
+        t.must_fail()
+        t.no_raise(second)
+        W = S.rows_of(O)
+
+        def goal(p):
+            if p.kind != "return":
+                return False
+            cur = find_obj(p.st, r1.oid)
+            lo1, up1 = cur.fields["lower"].flat(), cur.fields["upper"].flat()
+            vf = z3.And(*[S.dom(W, v2, v1) for v1 in S.verts(lo1, up1) for v2 in S.verts(snap["lo2"], snap["up2"])])
+            return V.Bz(p.value) == vf
+        t.prove_paths("second_result_is_the_vertex_formula_over_the_bounds_now_displayed", second, goal)
+    return _t
+
+
+_rect_history("intersect")
+_rect_history("update")
+
+
 def _rect_bad_slack(m, K, n):
     @task("C09", "Rect.is_dominated.raises[m=%d,slack_size=%d]" % (m, n))
     def _t(t):
